@@ -67,6 +67,11 @@ type Outcome struct {
 	ErrAtFault bool
 	Model      *model.Model // nil when the model could no longer represent the file
 	Path       string
+	FiredOps    []int
+	FiredFns    []string
+	WriterSteps int    // I/O steps before the final dump started
+	CloseErr    string // error of the final Close
+	ClosePanic  string
 }
 
 // Options controls an execution.
@@ -191,6 +196,8 @@ func Run(t *trace.Trace, o Options) *Outcome {
 	e.out.IOSteps = e.sim.Step
 	e.out.Fired = e.sim.Fired
 	e.out.FiredSteps = e.sim.FiredSteps
+	e.out.FiredOps = e.sim.FiredOps
+	e.out.FiredFns = e.sim.FiredFns
 	e.out.Log = e.sim.Log
 	if st, err := os.Stat(e.path); err == nil {
 		e.out.FileSize = st.Size()
@@ -264,7 +271,7 @@ func (e *Exec) createFile() {
 func call(f func() error) (res OpResult) {
 	defer func() {
 		if r := recover(); r != nil {
-			res.Panic = fmt.Sprint(r)
+			res.Panic = fmt.Sprint(r) + " @" + PanicSite()
 		}
 	}()
 	if err := f(); err != nil {
@@ -628,7 +635,11 @@ func (e *Exec) closeFile() OpResult {
 // model, and opens a new session when mode is open_for_write.
 func (e *Exec) restart(mode string, final bool) {
 	if e.fw != nil {
+		e.sim.CurOp = e.opIdx
 		res := e.closeFile()
+		if final {
+			e.out.CloseErr, e.out.ClosePanic = res.Err, res.Panic
+		}
 		if res.Err != "" && len(e.t.Faults) == 0 {
 			e.violate("close-error", ErrClass(res.Err), res.Err)
 		}
@@ -655,6 +666,9 @@ func (e *Exec) restart(mode string, final bool) {
 		}
 	}
 	e.out.Restarts++
+	if final {
+		e.out.WriterSteps = e.sim.Step
+	}
 	if !e.o.NoFinalCheck || final {
 		d := DumpFile(e.path, DumpOpts{SkipValues: e.o.SkipValues})
 		if final {
